@@ -224,6 +224,9 @@ func checkTxJSON(tx *gobinlog.Transaction) error {
 	if !json.Valid(out) {
 		return fmt.Errorf("output is not valid JSON: %.300s", out)
 	}
+	if !utf8.Valid(out) {
+		return fmt.Errorf("output is not UTF-8 (JSON text is UTF-8, RFC 8259 section 8.1): %.300q", out)
+	}
 	// the direct MarshalJSON call (what cmd/binlogDump does) must give the same bytes, and bytes it
 	// returned earlier must not change when further transactions are serialised
 	var direct []byte
